@@ -299,3 +299,47 @@ Proof.
     change (7 =? 7) with true. cbv iota. cbn [ctx_step]. rewrite Hx. apply sps_lookup_after_put.
   - rewrite Forall_map. exact Hafter.
 Qed.
+
+(* the same for PPSs (a PPS is parsed against the context the units before it left) *)
+Lemma ctx_after_unit_keeps_pps c v i p :
+  pps_by_id c i = Some p ->
+  (forall c' y, pps_from_bits c' (nal_bitsrc v) = OK y -> pic_parameter_set_id y <> i) ->
+  pps_by_id (ctx_after_unit c v) i = Some p.
+Proof.
+  intros Hc Hv. unfold ctx_after_unit. destruct v as [|b r]; [exact Hc|].
+  destruct (nal_header_new b) as [hdr|]; [|exact Hc].
+  destruct (nal_unit_type_id hdr =? 7).
+  { cbn [ctx_step]. destruct (sps_from_bits (nal_bitsrc (b :: r))); try exact Hc. }
+  destruct (nal_unit_type_id hdr =? 8); [|exact Hc].
+  cbn [ctx_step]. destruct (pps_from_bits c (nal_bitsrc (b :: r))) as [y| | |] eqn:E; try exact Hc.
+  rewrite pps_lookup_other; [exact Hc|]. intros Heq. apply (Hv c y E). symmetry. exact Heq.
+Qed.
+
+Lemma fold_keeps_pps post : forall c i p,
+  pps_by_id c i = Some p ->
+  Forall (fun v => forall c' y, pps_from_bits c' (nal_bitsrc v) = OK y -> pic_parameter_set_id y <> i) post ->
+  pps_by_id (fold_left ctx_after_unit post c) i = Some p.
+Proof.
+  induction post as [|v r IH]; intros c i p Hc H; [exact Hc|]. inversion H as [|? ? Hv Hr]; subst.
+  cbn [fold_left]. apply IH; [apply ctx_after_unit_keeps_pps; assumption|exact Hr].
+Qed.
+
+Theorem stream_pps_last_writer_wins before n b r after p t cs ctx0 pre :
+  let u := b :: r in
+  let units := before ++ (n, u) :: after in
+  Forall (fun v => unit_ok (snd v)) units -> (t = 0%nat \/ 3 <= t)%nat ->
+  Forall (fun v => exists q, unescape (skipn 1 (snd v)) = Some q) units ->
+  nal_header_new b = Some b -> nal_unit_type_id b = 8 ->
+  pps_from_bits (fold_left ctx_after_unit (map snd before) ctx0) (nal_bitsrc u) = OK p ->
+  Forall (fun v => forall c' y, pps_from_bits c' (nal_bitsrc (snd v)) = OK y -> pic_parameter_set_id y <> pic_parameter_set_id p) after ->
+  concat cs = annexb_encode units t ->
+  pps_by_id (ps_ctx (fst (pipeline_run ctx0 [] pre (map APush cs ++ [AReset])))) (pic_parameter_set_id p) = Some p.
+Proof.
+  intros u units Hu Ht Hp Hh Hty Hx Hafter Hc.
+  rewrite (stream_context units t cs ctx0 pre Hu Ht Hp Hc). subst units.
+  rewrite map_app, fold_left_app. cbn [map snd fold_left].
+  apply fold_keeps_pps.
+  - set (C := fold_left ctx_after_unit (map snd before) ctx0) in *. subst u. unfold ctx_after_unit. rewrite Hh, Hty.
+    change (8 =? 7) with false. change (8 =? 8) with true. cbv iota. cbn [ctx_step]. rewrite Hx. apply pps_lookup_after_put.
+  - rewrite Forall_map. exact Hafter.
+Qed.
